@@ -263,7 +263,7 @@ def run(ctx):
         "GenAllowed", "GenTerm", "GenInactive", "GenArrow", "GenParam", "GenKw", "GenComment", "GenNewLine",
         "Finish", "GenUnknownKey", "GenMissingArrow", "GenWrongArrow", "PrintText", "ParseText"])
     slices = QUICK if ctx.quick else THOROUGH
-    per_slice = 2500 if ctx.quick else None
+    per_slice = 2000 if ctx.quick else None
     for sl in slices:
         res = ctx.tlc("ReactionText_MC", "ReactionText_MC_%s.cfg" % sl, require_cases=100, timeout=1500)
         cases = res.cases
@@ -292,7 +292,7 @@ def run(ctx):
 
     # ---- code -> spec: seeded texts beyond the bounds and the lines the repository's tests and
     # docstrings parse, judged by TLC
-    n = 2000 if ctx.quick else 40000
+    n = 1500 if ctx.quick else 40000
     g = rc.Gen(ctx.rng)
     seqs, labels = [], []
     for i in range(n):
